@@ -347,6 +347,7 @@ if z3 is not None:
         "def_issues_of": _ulist("def_issues_of", 2), "all_tags_of": _ulist("all_tags_of", 1, "HedTag"),
         "derivative_unit_of": _derivative_unit_of, "float_parses": _float_parses, "float_of": _float_of, "SchemaEntry.has_attribute": _entry_has_attribute,
         "UnitClassEntry.has_attribute": _entry_has_attribute, "UnitEntry.has_attribute": _entry_has_attribute,
+        "def_tags_of": _ulist("def_tags_of", 1, "HedTag"),
         "tag_view": _tag_view, "basic_issues_of": _ulist("basic_issues_of", 3), "full_issues_of": _ulist("full_issues_of", 2),
         "str.rpartition": _partition(True), "str.partition": _partition(False),
         "str.count": _str_count_native, "count_of": _str_count_native,
